@@ -25,6 +25,12 @@ const MaxCallers = 16
 
 const hotWindow = 6
 
+// a call of the bounded corpus takes at most a few hundred thousand yields
+const (
+	spinCap   = 3_000_000
+	spinEvery = 50_000
+)
+
 // maxSelCases bounds the channels one task can wait on at once (cases of a select).
 const maxSelCases = 16
 
@@ -354,6 +360,7 @@ func logEvent(kind uint8, t, next int32, site uint32) {
 func yslow(site uint32, kind int) {
 	steps++
 	progress++
+	graceUsed = false
 	t := &tasks[cur]
 	t.opStep++
 	if int(site) < len(siteHit) {
@@ -430,9 +437,32 @@ func yslow(site uint32, kind int) {
 		scriptAt(site, EvSwitch)
 		return
 	}
+	if !preempt && t.opStep > spinCap && t.opStep%spinEvery == 0 {
+		// far beyond the length of any corpus call: the task is probably polling for
+		// something another task has to do; no policy may starve the others for ever
+		preempt = true
+		demote()
+	}
 	if preempt {
 		switchAway(site, EvSwitch)
 	}
+}
+
+// demote: under PCT a task that yields voluntarily (or polls) drops below everybody else,
+// otherwise it would be chosen again at once.
+//
+//go:norace
+func demote() {
+	if pol.Kind != PolPCT {
+		return
+	}
+	low := tasks[cur].prio
+	for i := int32(0); i < ntasks; i++ {
+		if tasks[i].state != tDone && tasks[i].prio < low {
+			low = tasks[i].prio
+		}
+	}
+	tasks[cur].prio = low - 1
 }
 
 //go:norace
@@ -649,6 +679,9 @@ func handoff(next int32) {
 func switchAway(site uint32, kind uint8) {
 	me := cur
 	next := pickNext(kind != EvSwitch)
+	if next < 0 && kind != EvSwitch && lastChance() {
+		next = pickNext(true)
+	}
 	if next < 0 {
 		if kind == EvSwitch {
 			return // nobody else: keep running
@@ -692,6 +725,22 @@ func noteOverlapWith(next int32) {
 	_ = next
 	noteOverlap()
 }
+
+// lastChance: before a deadlock is declared every blocked task gets one more attempt
+// (guards the verdict against a state change that happened without the progress counter
+// being bumped). It is re-armed by every executed yield.
+//
+//go:norace
+func lastChance() bool {
+	if graceUsed {
+		return false
+	}
+	graceUsed = true
+	progress++
+	return true
+}
+
+var graceUsed bool
 
 //go:norace
 func callersDone() bool {
@@ -875,6 +924,9 @@ func scriptSwitch(site uint32, kind uint8, next int32) {
 		afterDone(me, next)
 		return
 	}
+	if next < 0 && kind != EvSwitch && lastChance() {
+		next = lowestEligible(me)
+	}
 	if next < 0 {
 		if kind == EvSwitch {
 			return
@@ -911,6 +963,9 @@ func scriptSwitch(site uint32, kind uint8, next int32) {
 //
 //go:norace
 func afterDone(id, next int32) {
+	if next < 0 && !callersDone() && lastChance() {
+		next = pickNextAny()
+	}
 	if next < 0 {
 		logEvent(EvDone, id, -1, 0)
 		for i := int32(0); i < ntasks; i++ {
@@ -928,6 +983,14 @@ func afterDone(id, next int32) {
 	logEvent(EvDone, id, next, 0)
 	cur = next
 	turn = next
+}
+
+//go:norace
+func pickNextAny() int32 {
+	if pol.Kind == PolScript {
+		return lowestEligible(cur)
+	}
+	return pickNext(true)
 }
 
 //go:norace
